@@ -103,7 +103,7 @@ func pathProfile(name, pathText string) string {
 	y := m.YMap()
 	y.Set("profile", m.YStr(name))
 	y.Set("prefixes", m.YMap().Set("ex", m.YStr(m.NS)))
-	y.Set("violation", m.YSeq(m.YStr("vin"), m.YStr("vcnt"), m.YStr("vnest")))
+	y.Set("violation", m.YSeq(m.YStr("vin"), m.YStr("vcnt"), m.YStr("vnest"), m.YStr("vall")))
 	vs := m.YMap()
 	mk := func(c *m.Y) *m.Y {
 		v := m.YMap()
@@ -115,6 +115,12 @@ func pathProfile(name, pathText string) string {
 	vs.Set("vcnt", mk(m.YMap().Set("exactCount", m.YInt(99))))
 	inner := m.YMap().Set("propertyConstraints", m.YMap().Set("ex.zzz", m.YMap().Set("minCount", m.YInt(1))))
 	vs.Set("vnest", mk(m.YMap().Set("nested", inner)))
+	// the same three constraints under ONE path key: every constraint of the map must see the same path
+	all := m.YMap()
+	all.Set("in", m.YSeq(m.YStr("zz-unmatchable")))
+	all.Set("exactCount", m.YInt(99))
+	all.Set("nested", inner.Clone())
+	vs.Set("vall", mk(all))
 	y.Set("validations", vs)
 	return y.Print(m.YOpts{})
 }
@@ -146,10 +152,29 @@ func traceValues(r m.Result) []map[string]any {
 	return out
 }
 
+// traceValuesOf returns the traceValue objects of the traces of one component.
+func traceValuesOf(r m.Result, component string) []map[string]any {
+	var out []map[string]any
+	tr, _ := r.Raw["trace"].([]any)
+	for _, x := range tr {
+		if tm, ok := x.(map[string]any); ok {
+			if comp, _ := tm["component"].(string); comp != component {
+				continue
+			}
+			if tv, ok := tm["traceValue"].(map[string]any); ok {
+				out = append(out, tv)
+			}
+		}
+	}
+	return out
+}
+
 func decideC02(c c02Case) ev.Verdict {
 	if verdict, _ := m.RefParsePath(c.PathText); verdict != m.Accept {
 		return ev.Verdict{Discard: true, Detail: "printed path is not a plain sentence of the grammar: " + c.PathText}
 	}
+	// the profile is a function of the path text (saved replay cases may predate a change of its shape)
+	c.ProfileText = pathProfile("c02", c.PathText)
 	res := validateFixed(c.ProfileText, c.DataText)
 	if res.failed() {
 		return ev.Violation("c02-call-failed:"+classifyErr(res), "path %q: validation failed: %s\n%s", c.PathText, trunc(res.errString(), 500), c.ProfileText)
@@ -183,75 +208,77 @@ func decideC02(c c02Case) ev.Verdict {
 		if len(den) > 0 {
 			anyNonEmpty = true
 		}
-		// (1) values seen by `in`
-		var gotStrings []string
-		for _, r := range rep.Results {
-			if r.Shape == "vin" && r.Focus == n.ID {
-				for _, tv := range traceValues(r) {
-					if a, ok := tv["actual"].(string); ok {
-						gotStrings = append(gotStrings, a)
-					} else {
-						return ev.Violation("c02-in-trace-shape", "in trace has no string actual: %v", tv)
+		for _, grp := range []struct{ in, cnt, nest, tag string }{{"vin", "vcnt", "vnest", "separate validations"}, {"vall", "vall", "vall", "one constraint map"}} {
+			// (1) values seen by `in`
+			var gotStrings []string
+			for _, r := range rep.Results {
+				if r.Shape == grp.in && r.Focus == n.ID {
+					for _, tv := range traceValuesOf(r, "in") {
+						if a, ok := tv["actual"].(string); ok {
+							gotStrings = append(gotStrings, a)
+						} else {
+							return ev.Violation("c02-in-trace-shape", "in trace has no string actual: %v", tv)
+						}
 					}
 				}
 			}
-		}
-		gotStrings = dedupSorted(gotStrings)
-		if !m.EqualStrings(wantStrings, gotStrings) {
-			return ev.Violation("c02-values-mismatch", "path %q from %s: constraint applied to values %v, the path denotes %v\ngraph:\n%s", c.PathText, n.ID, gotStrings, wantStrings, c.Graph)
-		}
-		// (2) distinct count
-		gotCount := int64(-1)
-		for _, r := range rep.Results {
-			if r.Shape == "vcnt" && r.Focus == n.ID {
-				for _, tv := range traceValues(r) {
-					if num, ok := tv["actual"].(json.Number); ok {
-						gotCount, _ = num.Int64()
+			gotStrings = dedupSorted(gotStrings)
+			if !m.EqualStrings(wantStrings, gotStrings) {
+				return ev.Violation("c02-values-mismatch", "path %q from %s (%s): constraint applied to values %v, the path denotes %v\ngraph:\n%s", c.PathText, n.ID, grp.tag, gotStrings, wantStrings, c.Graph)
+			}
+			// (2) distinct count
+			gotCount := int64(-1)
+			for _, r := range rep.Results {
+				if r.Shape == grp.cnt && r.Focus == n.ID {
+					for _, tv := range traceValuesOf(r, "exactCount") {
+						if num, ok := tv["actual"].(json.Number); ok {
+							gotCount, _ = num.Int64()
+						}
 					}
 				}
 			}
-		}
-		if gotCount != int64(len(den)) {
-			sig := "c02-count-mismatch"
+			if gotCount != int64(len(den)) {
+				sig := "c02-count-mismatch"
+				if fwdInv {
+					sig = "c02-forward-inverse-double-count"
+				}
+				vv := ev.Violation(sig, "path %q from %s (%s): exactCount saw %d values, the path denotes %d distinct values %v\ngraph:\n%s", c.PathText, n.ID, grp.tag, gotCount, len(den), wantStrings, c.Graph)
+				return vv
+			}
 			if fwdInv {
-				sig = "c02-forward-inverse-double-count"
+				o13 = true
 			}
-			vv := ev.Violation(sig, "path %q from %s: exactCount saw %d values, the path denotes %d distinct values %v\ngraph:\n%s", c.PathText, n.ID, gotCount, len(den), wantStrings, c.Graph)
-			return vv
-		}
-		if fwdInv {
-			o13 = true
-		}
-		// (3) nodes seen by nested
-		var gotNodes []string
-		failed := int64(-1)
-		reported := false
-		for _, r := range rep.Results {
-			if r.Shape == "vnest" && r.Focus == n.ID {
-				reported = true
-				for _, tv := range traceValues(r) {
-					if num, ok := tv["failedNodes"].(json.Number); ok {
-						failed, _ = num.Int64()
-					}
-					if subs, ok := tv["subResult"].([]any); ok {
-						for _, s := range subs {
-							if sm, ok := s.(map[string]any); ok {
-								if f, ok := sm["focusNode"].(string); ok {
-									gotNodes = append(gotNodes, f)
+			// (3) nodes seen by nested
+			var gotNodes []string
+			failed := int64(-1)
+			reported := false
+			for _, r := range rep.Results {
+				if r.Shape == grp.nest && r.Focus == n.ID && len(traceValuesOf(r, "nested")) > 0 {
+					reported = true
+					for _, tv := range traceValuesOf(r, "nested") {
+						if num, ok := tv["failedNodes"].(json.Number); ok {
+							failed, _ = num.Int64()
+						}
+						if subs, ok := tv["subResult"].([]any); ok {
+							for _, s := range subs {
+								if sm, ok := s.(map[string]any); ok {
+									if f, ok := sm["focusNode"].(string); ok {
+										gotNodes = append(gotNodes, f)
+									}
 								}
 							}
 						}
 					}
 				}
 			}
-		}
-		gotNodes = dedupSorted(gotNodes)
-		if reported != (len(wantNodes) > 0) {
-			return ev.Violation("c02-nested-presence", "path %q from %s: nested reported=%v, the path reaches nodes %v", c.PathText, n.ID, reported, short(wantNodes))
-		}
-		// failedNodes is compared only when the trace carries it (its name is not part of the property)
-		if reported && (!m.EqualStrings(wantNodes, gotNodes) || (failed >= 0 && failed != int64(len(wantNodes)))) {
-			return ev.Violation("c02-nested-nodes-mismatch", "path %q from %s: nested visited %v (failedNodes=%d), the path reaches %v\ngraph:\n%s", c.PathText, n.ID, short(gotNodes), failed, short(wantNodes), c.Graph)
+			gotNodes = dedupSorted(gotNodes)
+			if reported != (len(wantNodes) > 0) {
+				return ev.Violation("c02-nested-presence", "path %q from %s (%s): nested reported=%v, the path reaches nodes %v", c.PathText, n.ID, grp.tag, reported, short(wantNodes))
+			}
+			// failedNodes is compared only when the trace carries it (its name is not part of the property)
+			if reported && (!m.EqualStrings(wantNodes, gotNodes) || (failed >= 0 && failed != int64(len(wantNodes)))) {
+				return ev.Violation("c02-nested-nodes-mismatch", "path %q from %s (%s): nested visited %v (failedNodes=%d), the path reaches %v\ngraph:\n%s", c.PathText, n.ID, grp.tag, short(gotNodes), failed, short(wantNodes), c.Graph)
+			}
 		}
 		if len(wantNodes) > 0 {
 			// a node reached by several routes?
